@@ -306,6 +306,19 @@ func runOnce(run int, c cfg, found func(sig, detail string)) []Event {
 			found("flags-after-close", fmt.Sprintf("closed=%v connected=%v disconnected=%v", cl.Closed().IsSet(), cl.Connected().IsSet(), cl.Disconnected().IsSet()))
 		}
 	default:
+		// an outage with a call in it: the server goes away, the connections the client still holds are dropped, a call
+		// is made (it fails, or is served by a connection that survived) and then the server comes back
+		stopServer()
+		for k := 0; k < 4; k++ {
+			ctx := async.TimeoutContext(100 * time.Millisecond)
+			conn, st := cl.Conn(ctx)
+			if !st.OK() {
+				break
+			}
+			conn.Close()
+			time.Sleep(2 * time.Millisecond)
+		}
+		echo(cl, 300*time.Millisecond)
 		// recovery: once the server is reachable an on-demand client succeeds on its next calls,
 		// an auto-connect client reconnects by itself
 		startServer()
